@@ -54,7 +54,8 @@ AWARE = [["dt", 2020, 3, 10, 10, 0, 0, ["utc"]], ["dt", 2020, 3, 10, 12, 30, 0, 
          ["dt", 2020, 3, 29, 1, 30, 0, ["zi", "Europe/Berlin"]],
          ["dt", 2020, 3, 7, 12, 0, 0, ["pytz", "America/New_York"]],
          ["dt", 2020, 3, 8, 12, 0, 0, ["pytz", "America/New_York"]],
-         ["dt", 2020, 10, 25, 2, 30, 0, ["zi", "Europe/Berlin"]]]
+         ["dt", 2020, 10, 25, 2, 30, 0, ["zi", "Europe/Berlin"]],
+         ["dt", 2020, 3, 28, 23, 30, 0, ["du", "Europe/London"]]]
 DURS = [["td", 1, 0], ["td", 2, 0], ["td", 7, 0], ["td", 0, 5400], ["td", 0, 0], ["td", -1, 0],
         ["td", -1, 82800], ["td", 1, 3600], ["td", 0, 45]]
 BAD = [["s", "20200310"], ["i", 5], ["f", 1.5], ["list", []]]
